@@ -43,6 +43,13 @@ const (
 	vsyncPath  = "verifkit/vsched/vsync"
 )
 
+func verifRoot() string {
+	if r := os.Getenv("VERIF_ROOT"); r != "" {
+		return r
+	}
+	return "/verif"
+}
+
 func DefaultConfig(out string) Config {
 	return Config{
 		OutDir: out,
@@ -54,7 +61,7 @@ func DefaultConfig(out string) Config {
 			pkgHarness: {},
 		},
 		StmtPointFiles: []string{"event_cache.go", "data_structure.go"},
-		Dir:            "/verif",
+		Dir:            verifRoot(),
 		Tags:           "verif",
 	}
 }
